@@ -26,6 +26,8 @@ def collect(names):
         pd = os.path.join(sd, d, "patch.diff")
         if os.path.exists(pd):
             meta = json.load(open(os.path.join(sd, d, "meta.json")))
+            if meta.get("superseded"):
+                continue  # no longer a valid seeded change for the tree as repaired since (see its meta.json)
             out.append(("seeded/" + d, pd, meta.get("checks") or [meta["property"]]))
     md = os.path.join(VERIF, "selftest", "mutants")
     for f in sorted(os.listdir(md)):
